@@ -6,6 +6,7 @@ import (
 	"encoding/json"
 	"fmt"
 	"strings"
+	"verif/env"
 
 	"github.com/gebn/bmc"
 	"github.com/gebn/bmc/pkg/ipmi"
@@ -315,7 +316,8 @@ type c01MultiCase struct {
 	Suites []ref.Suite `json:"suites"`
 	// Mode 0: each session is closed before the next is opened; 1: all are
 	// opened first, used alternately, then closed in opening order; 2: as 1 but
-	// closed in reverse order with commands on the survivors in between
+	// closed in reverse order with commands on the survivors in between; 3: as
+	// 0, but the reply to a command is lost twice along the way
 	Mode int  `json:"mode"`
 	KG   bool `json:"kg"`
 }
@@ -387,12 +389,38 @@ func c01Multi(c c01MultiCase) (string, string) {
 			fail("C01/multi/close", "Close returned nil but the BMC did not see a valid Close Session for %#x", x.sid)
 		}
 	}
+	// Lose: how many consecutive replies go missing in mode 3
+	lose := 0
+	w.T.Menu = func(t *env.Transport, req []byte) []env.Answer {
+		if lose > 0 {
+			lose--
+			return []env.Answer{env.LostReply()}
+		}
+		return []env.Answer{env.Honest()}
+	}
 	p := guard(func() {
 		switch c.Mode {
 		case 0:
 			for i := range c.Suites {
 				x := openOne(i)
 				use(x, 0)
+				closeOne(x)
+			}
+		case 3:
+			// the reply to one command is lost (the command fails, as documented for
+			// a transport failure inside a session); every command sent on the
+			// session afterwards must still pass the BMC's checks and be answered
+			for i := range c.Suites {
+				x := openOne(i)
+				use(x, 0)
+				if x != nil {
+					for n := 1; n <= 2; n++ {
+						lose = 1
+						x.s.GetDeviceID(w.Ctx)
+						lose = 0
+						use(x, n)
+					}
+				}
 				closeOne(x)
 			}
 		default:
@@ -563,6 +591,10 @@ func runC01(r *rep.R) {
 		} else {
 			r.Outcome("std:several-sessions-on-one-connection-work")
 		}
+	}
+	for i, s1 := range suites {
+		doMulti(c01MultiCase{Suites: []ref.Suite{s1}, Mode: 3, KG: i%2 == 1})
+		doMulti(c01MultiCase{Suites: []ref.Suite{s1, suites[(i+1)%len(suites)]}, Mode: 3, KG: i%2 == 0})
 	}
 	for mode := 0; mode < 3; mode++ {
 		for i, s1 := range suites {
